@@ -16,7 +16,7 @@
 //! alias must carry an origin chain without a repeated name, no longer than the table.
 
 use futures_util::FutureExt as _;
-use std::cell::Cell;
+use std::cell::{Cell, RefCell};
 use std::rc::Rc;
 use yash_env::Env;
 use yash_env::builtin::Builtin;
@@ -31,28 +31,30 @@ use yverif::rng::Rng;
 
 /// Glossary with a step budget: every substitution needs a look-up, so an endless substitution
 /// exhausts the budget (reported as `TIMEOUT`).
-struct Budgeted<'a, S> {
-    env: &'a Env<S>,
+struct Budgeted<'a, 'b, S> {
+    /// the glossary exactly as `read_eval_loop` passes it: `&RefCell<&mut Env>`
+    cell: &'a RefCell<&'b mut Env<S>>,
     left: &'a Cell<usize>,
 }
 
-impl<S> std::fmt::Debug for Budgeted<'_, S> {
+impl<S> std::fmt::Debug for Budgeted<'_, '_, S> {
     fn fmt(&self, f: &mut std::fmt::Formatter<'_>) -> std::fmt::Result {
         write!(f, "Budgeted({})", self.left.get())
     }
 }
 
-impl<S> Glossary for Budgeted<'_, S> {
+impl<S: std::fmt::Debug> Glossary for Budgeted<'_, '_, S> {
     fn look_up(&self, name: &str) -> Option<Rc<Alias>> {
         let n = self.left.get();
         if n == 0 {
             panic!("BUDGET");
         }
         self.left.set(n - 1);
-        self.env.aliases.look_up(name)
+        // &T -> RefCell<T> -> &mut T -> Env -> AliasSet, as in the shell
+        Glossary::look_up(&self.cell, name)
     }
     fn is_empty(&self) -> bool {
-        self.env.aliases.is_empty()
+        Glossary::is_empty(&self.cell)
     }
 }
 
@@ -184,16 +186,31 @@ fn real_parse(es: &[Entry], line: &str, budget: usize, exec: bool) -> Parsed {
     let mut chains = vec![];
     let mut names: Vec<String> = env.aliases.iter().map(|e| e.0.name.clone()).collect();
     let mut rounds = 0usize;
+    let mut text = String::new();
+    let cell = RefCell::new(&mut env);
     loop {
         rounds += 1;
         if rounds > 3000 {
             panic!("BUDGET");
         }
-        let r = {
-            let g = Budgeted { env: &env, left: &left };
+        // as read_eval_loop does: drop the consumed buffer when nothing is pending, refresh the mode
+        if !lexer.pending() {
+            text.push_str(&lexer.source_string(0..lexer.index()));
+            lexer.flush();
+        }
+        lexer.set_mode(yash_env::parser::Mode::from(&cell.borrow().options));
+        let r = if exec {
+            let g = Budgeted { cell: &cell, left: &left };
             Parser::config()
                 .aliases(&g)
+                .declaration_utilities(&cell)
                 .input(&mut lexer)
+                .command_line()
+                .now_or_never()
+                .expect("memory input never blocks")
+        } else {
+            // no aliases at all: the default configuration (EmptyGlossary)
+            Parser::new(&mut lexer)
                 .command_line()
                 .now_or_never()
                 .expect("memory input never blocks")
@@ -203,8 +220,9 @@ fn real_parse(es: &[Entry], line: &str, budget: usize, exec: bool) -> Parsed {
                 collect_chains(&list, &mut chains);
                 printed.as_mut().unwrap().push(list.to_string());
                 if exec {
+                    let env = &mut **cell.borrow_mut();
                     for c in alias_commands(&list) {
-                        let _ = c.execute(&mut env).now_or_never().expect("built-in never blocks");
+                        let _ = c.execute(env).now_or_never().expect("built-in never blocks");
                     }
                     for e in env.aliases.iter() {
                         if !names.contains(&e.0.name) {
@@ -220,7 +238,8 @@ fn real_parse(es: &[Entry], line: &str, budget: usize, exec: bool) -> Parsed {
             }
         }
     }
-    let text = lexer.source_string(0..lexer.index());
+    text.push_str(&lexer.source_string(0..lexer.index()));
+    drop(cell);
     let mut t: Vec<String> = env
         .aliases
         .iter()
@@ -302,6 +321,9 @@ fn value_pool(names: &[&str]) -> Vec<String> {
         v.push(w.into());
     }
     for w in ["if", "then", "! ", "{ ", "}", "for", "in ", "do", "done", "case", "esac", "while ", "fi", "else "] {
+        v.push(w.into());
+    }
+    for w in ["function ", "[[ ", "select", "namespace ", "v=(", "v=(x ", "export ", "command ", "$(x) ", "`x` "] {
         v.push(w.into());
     }
     for w in [";", "|", "&& ", "( ", ")", "> ", "x >", "2>x ", "\n", "; ", "v=1 ", ";;", "x |"] {
@@ -439,6 +461,36 @@ const LINES: &[&str] = &[
     "case \\\n{0} in {1} \\\n| {2}) x;; esac",
     "{0} &&\\\n {1} \\\n {2}",
     "if {0} \\\n{1}; then \\\n{2}; fi",
+    // command substitutions and backquotes: parsed by a nested parser WITHOUT aliases
+    "{0} $({1} {2}) {3}",
+    "$({0}) {1}",
+    "{0} `{1} {2}` {3}",
+    "{0} \"$({1}; {2})\" {3}",
+    "{0}=$({1}) {2}",
+    "x $({0} | ({1})) {2}",
+    "{0} > $({1}) {2}",
+    "{0} $({1} '{2})' ) {3}",
+    // array assignments: the values are taken with take_token_auto
+    "v=({0} {1}) {2}",
+    "v=(\n{0}\n{1}) {2}",
+    "{0} v=({1})",
+    "v=() {0}",
+    "v=({0}",
+    "w=1 v=({0} {1}) {2} {3}",
+    "v= ({0})",
+    "v=({0} > {1})",
+    // declaration utilities (expansion mode of the arguments; `command` defers the decision)
+    "export {0}={1} {2}",
+    "readonly {0} {1}",
+    "command export {0}={1}",
+    "command {0} {1}",
+    "typeset {0}=~ {1}",
+    // reserved words the parser knows but does not support
+    "function {0}",
+    "[[ {0} ]]",
+    "{0} function",
+    "select {0} in x",
+    "{0} && namespace {1}",
 ];
 
 fn render(tpl: &str, ns: &[&str]) -> String {
@@ -734,6 +786,16 @@ fn main() {
         "alias {n}={v}\n",
         "{m} ",
         "x ",
+        "alias -x {n}=y\n{n}",
+        "alias\n{n}",
+        "alias {n}\n{n}",
+        "alias {n} {m}={v} zz\n{m}",
+        "unalias\n{n}",
+        "unalias -a {n}\n{n}",
+        "unalias -x\n{n}",
+        "alias -- {n}={v}\n{n}",
+        "unalias -- {n}\n{n}",
+        "unalias {n} {n}\n{n}",
     ];
     let l_tpl = [
         "{0}",
